@@ -195,6 +195,22 @@ class GR:
         return "fmt %s %s %s %s" % (self.config(), ",".join(ress), self.fns(), self.requests())
 
 
+def errlist_cases(rng):
+    """the caller's error list (ONE list for the whole history, `ev=shared`) already holds hundreds of errors when a
+    cyclic or exploding message is formatted: the cycle / the limit must still be reported"""
+    many = "e50 = " + "{ $zz }" * 50 + "\ne99 = " + "{ MISSING() }{ m9 }{ -t9 }" * 33 + "\n"
+    prog = (many + "cyc = a { cyc } b\nping = { pong }\npong = { ping }\nm0 = L\n"
+            + "".join("m%d = {m%d}{m%d}{m%d}\n" % (i, i - 1, i - 1, i - 1) for i in range(1, 6))
+            + "bomb = { m5 }\nselb = { \"a\" ->\n *[a] x{ m5 }y\n }\nok = fine { $x }\n")
+    for iso in (0, 1):
+        for fl in ("st", "conc"):
+            for pre in ([], ["e50"] * 2, ["e50"] * 3, ["e99"] * 2 + ["e50"], ["e99"] * 5):
+                for tail in (["cyc", "bomb"], ["bomb", "cyc"], ["ping", "selb", "ok"], ["selb", "cyc", "e50", "bomb"]):
+                    cfg = "iso=%d;tr=none;fm=none;fl=%s;loc=en;ev=shared" % (iso, fl)
+                    reqs = ",".join("%s:~:~" % hx(m) for m in pre + tail)
+                    yield "fmt %s a:%s %s %s" % (cfg, hx(prog), ",".join(FUNCS), reqs)
+
+
 def bomb_cases(rng):
     """3^k fan-out chains with the limit tripping at every syntactic position"""
     chain = ""
@@ -217,6 +233,13 @@ def bomb_cases(rng):
         "top = Start { $x ->\n *[other] { row }|{ row }|{ row }\n } End\n", "top = { $x }{ NUMBER(m5) }{ $x }\n",
         "top = x { 1 ->\n *[other] y { \"s\" ->\n *[s] z { m5 } z\n } y\n } x\n",
     ]
+    # the limit trips under a select whose selector is a LONG string literal (multi-byte characters at every offset
+    # around 16 / 32 / 64 bytes): whatever echoes the selector in an error or a fallback must not cut inside a character
+    for n in (14, 15, 16, 30, 31, 32, 33, 62, 63, 64, 65):
+        for pad in ("", "-", "--"):
+            lit = pad + "\u00e9" * ((n - len(pad)) // 2 + 3)
+            tops.append("top = { \"%s\" ->\n *[a] x{ m5 }y\n }\n" % lit)
+            tops.append("top = a { ARGS(\"%s\", m5) }{ \"%s\" }\n" % (lit + "\U0001F600", lit))
     extra = "-tb = { m5 }\n    .a = { m5 }\nm5x = x\nrow = " + "{ $x }" * 50 + "\n"
     for leaf in leaf_variants:
         for top in tops:
